@@ -267,6 +267,34 @@ def run(prop, tier, seed):
         d = float(np.max(np.abs(P - exp))) if P.shape == exp.shape else 1.0
         wdiff = float(np.max(np.abs(np.asarray(sm.weights) - np.asarray(sa.weights)))) if np.shape(sm.weights) == np.shape(sa.weights) else 1.0
         recs.append({"k": "law", "law": "mirror-is-not-the-reflection", "dev": dev(max(d, wdiff), 0.0, 1e-15), "term": t})
+    # the mirrors of ONE scheme object do not depend on the order in which they are asked for, nor on having been asked
+    # before (each mirror keeps its own memo): every order of the 2 / 3 mirror calls on a freshly built object, each
+    # call made twice, must return the reflection of that object in the named coordinate (round 5, seed C15-9)
+    import itertools
+    for t in T:
+        d0 = dim(t)
+        if d0 < 2 or t["op"].startswith("mirror") or t["op"] == "base":
+            continue
+        names = ["mirror_x", "mirror_y", "mirror_z"][:d0]
+        bad, worst_case = 0, None
+        for order in itertools.permutations(names):
+            try:
+                s0 = build(t)
+            except Exception:
+                break
+            A = np.array(s0.points, dtype=float, copy=True)
+            W = np.array(s0.weights, dtype=float, copy=True)
+            for n in list(order) + list(order):
+                m = getattr(s0, n)()
+                ax = {"mirror_x": 0, "mirror_y": 1, "mirror_z": 2}[n]
+                exp = A.copy()
+                exp[ax] = 1 - A[ax]
+                P = np.array(m.points, dtype=float)
+                if P.shape != exp.shape or float(np.max(np.abs(P - exp))) > 1e-15 or not np.array_equal(np.asarray(m.weights, dtype=float), W):
+                    bad, worst_case = 1, worst_case or "%s in order %s" % (n, ",".join(order))
+            if not same(snapshot(s0), (A, W)):
+                bad, worst_case = 1, worst_case or "object itself changed after order %s" % ",".join(order)
+        recs.append({"k": "law", "law": "mirror-depends-on-call-order", "dev": 10 ** 9 if bad else 0, "term": t, "case": worst_case or ""})
     # constructors are pure: building a derived scheme leaves the schemes it is built from unchanged, and a second
     # scheme built from the same argument objects equals the first (a base rule may be shared by many schemes)
     for t in T:
